@@ -78,7 +78,7 @@ func c15Exec(c *Ctx, cs docCase) string {
 		}
 		c.Violate(Violation{Oracle: "typed-vs-generic-pointer", Class: sym, Pointer: ptr, Expected: compact(want), Observed: compact(obs),
 			Features: map[string]string{"owner": owner, "member": normMember(last), "self": self, "ptrclass": class, "target": cs.Target, "kind": cs.Kind},
-			Case: cs, Detail: det})
+			Case:     cs, Detail: det})
 	})
 	return res
 }
@@ -112,7 +112,7 @@ func c15Run(c *Ctx) {
 func init() {
 	register(&CheckDef{
 		ID: "C15", Build: "light", Run: c15Run, RunCase: c15RunCase,
-		Rule: "states = C01 state space (cost <= bound, every embedding route); transitions = every JSON pointer into the encoding of each document, evaluated with go-openapi/jsonpointer on the typed value and on the generic decoding of its encoding; pointers are classified K (addresses a listed object kind), M (plain non-$ref member of one) or D (deeper: counted, not judged); non-trivial = document with at least one optional member",
+		Rule:        "states = C01 state space (cost <= bound, every embedding route); transitions = every JSON pointer into the encoding of each document, evaluated with go-openapi/jsonpointer on the typed value and on the generic decoding of its encoding; pointers are classified K (addresses a listed object kind), M (plain non-$ref member of one) or D (deeper: counted, not judged); non-trivial = document with at least one optional member",
 		Assumptions: []string{"pointer classes K and M are exactly the pointers C15 quantifies over; disagreements on deeper pointers (inside free-form payloads, scalar lists, contact/license/xml/externalDocs members) are reported in the evidence only"},
 		MinOutcomes: 1,
 	})
